@@ -234,3 +234,14 @@ Definition ex_cow : op := OStrAppend 1 [(KList, ByIdx 0)] [120%Z].
 Definition ex_str_from_own : op := OAssignStrFrom 0 [] 0 [(KMap, ByKey [107%Z]); (KList, ByIdx 0)].
 Definition ex_node_from_own : op := OAssignNodeFrom 0 [] 0 [(KMap, ByKey [108%Z])] KList.
 
+
+(* round 5 (audit: variant_equal_to_copy speaks of whole variables only): ANY two handles reachable from the variables -
+   roots or items nested at any depth, e.g. the node written by `x.toList().front() = y.toMap().find(k)` and its source -
+   that denote the same value compare equal under the model's operator== (the transcribed switch, not veq) *)
+Theorem equal_values_compare_equal_at_any_depth s a b v f :
+  reachable s -> hheld (hp s) (vars s) a -> hheld (hp s) (vars s) b -> den (hp s) v a -> den (hp s) v b ->
+  2 * hdepth (hp s) a + 2 <= f -> meq f (hp s) a b = Some true.
+Proof.
+  intros R Ha Hb Da Db L. destruct (reachable_inv s R) as [I _].
+  rewrite (meq_refines (hp s) (vars s) I v a b v f Ha Hb Da Db L). apply veq_refl.
+Qed.
